@@ -37,6 +37,7 @@ func init() {
 		"(*sync.RWMutex).RUnlock":    mRUnlock,
 		"(*sync.Once).Do":            mOnceDo,
 		"errors.Is":                  mErrorsIs,
+		"sort.Slice":                 mSortSlice,
 		"context.WithTimeout":        mWithTimeout,
 		"context.WithCancel":         mWithCancel,
 		"context.Background":         mBackground,
@@ -262,4 +263,69 @@ func mBackground(f *frame, args []Val, c *ssa.CallCommon, pos string) Val {
 
 func mFreshTime(f *frame, args []Val, c *ssa.CallCommon, pos string) Val {
 	return f.x.vc.freshVal(c.Signature().Results().At(0).Type(), "now")
+}
+
+// sort.Slice(x, less): afterwards x holds a rearrangement of its former elements such
+// that less(j, i) is false for all i < j.  (Trusted model of the library function; the
+// comparator closure is the real code, evaluated symbolically.)
+func mSortSlice(f *frame, args []Val, c *ssa.CallCommon, pos string) Val {
+	x := f.x
+	h := x.heap
+	vc := x.vc
+	f.trust("sort.Slice leaves a rearrangement of the slice's elements ordered by the given less function")
+	sl, ok := x.boxes[args[0].Fs[1].S]
+	if !ok {
+		panic(unsupported("sort.Slice on an unknown slice value"))
+	}
+	cl, ok := x.closures[args[1].S]
+	if !ok || cl == nil {
+		panic(unsupported("sort.Slice with an unknown less function"))
+	}
+	et := sliceElem(sl.T)
+	base, off, ln := sl.Fs[0].S, sl.Fs[1].S, sl.Fs[2].S
+	// new contents: every new element is one of the old elements
+	pi := vc.Fun(vc.fresh("sort.perm"), []string{"Int"}, "Int")
+	for _, l := range leaves(et) {
+		key := elemKey(et, l.Path)
+		es := h.arrSort(vc.sortOf(l.T))
+		sort := h.arrSort(es)
+		cur := h.get(f.st, key, sort)
+		old := Select(cur, base)
+		na := vc.Const("sorted", es)
+		q := sym(vc.fresh("i"))
+		f.assume("(forall ((" + q + " Int)) " + Ite(And(app("<=", off, q), app("<", q, app("+", off, ln))),
+			And(Eq(Select(na, q), Select(old, app(pi, q))), app("<=", off, app(pi, q)), app("<", app(pi, q), app("+", off, ln))),
+			Eq(Select(na, q), Select(old, q))) + ")")
+		h.set(f.st, key, sort, Ite(Eq(base, "0"), cur, Store(cur, base, na)))
+	}
+	// ordered: forall i < j: !less(j, i), with the comparator evaluated on the new contents
+	qi, qj := sym(vc.fresh("si")), sym(vc.fresh("sj"))
+	vc.Bound = append(vc.Bound, qi, qj)
+	x.qsyms = append(x.qsyms, qi, qj)
+	// qi, qj range over absolute positions in the backing array (trigger-friendly)
+	lt := x.runClosurePure(f, cl, []Val{{T: intT, S: app("-", qj, off)}, {T: intT, S: app("-", qi, off)}})
+	vc.Bound = vc.Bound[:len(vc.Bound)-2]
+	x.qsyms = x.qsyms[:len(x.qsyms)-2]
+	f.assume("(forall ((" + qi + " Int) (" + qj + " Int)) " + Implies(And(app("<=", off, qi), app("<", qi, qj), app("<", qj, app("+", off, ln))), Not(lt.S)) + ")")
+	return Val{T: types.NewTuple()}
+}
+
+// runClosurePure evaluates a (loop-free) closure on the current state, discarding side
+// effects and the safety obligations generated inside.
+func (x *Exec) runClosurePure(f *frame, cl *Closure, args []Val) Val {
+	if !inlinable(cl.Fn) || len(cl.Fn.Blocks) == 0 {
+		panic(unsupported("closure cannot be evaluated symbolically: " + cl.Fn.String()))
+	}
+	saveObls := x.vc.Obls
+	saveNames := x.oblNames
+	x.oblNames = map[string]int{}
+	saveAbs := x.abstracted
+	r := x.run(cl.Fn, args, cl.Bindings, f.st.clone(), "true", x.opts.InlineDepth-2, false)
+	x.vc.Obls = saveObls
+	x.oblNames = saveNames
+	x.abstracted = saveAbs
+	if r.noRet {
+		panic(unsupported("closure does not return"))
+	}
+	return r.val
 }
